@@ -115,7 +115,7 @@ func cmdCheck(argv []string) int {
 		if o.tier == "thorough" {
 			o.timeout = 120
 		} else {
-			o.timeout = 20
+			o.timeout = 30
 		}
 	}
 	return runCheck(o)
